@@ -96,6 +96,10 @@ structure RState where
   cur : Nat
   it : Iter
   results : List (List Val)
+  /-- a `<row>` whose `r` exceeds `TotalRows` was met: `Rows.Next` returns false, or
+  `Rows.Columns` returns `ErrMaxRows` and `GetRows` breaks *without* appending the
+  row it was building -/
+  stopped : Bool := false
 
 /-- `if len(row) > 0 { pad with empty rows; append; maxVal = cur }` -/
 def flush (st : RState) : List (List Val) :=
@@ -107,6 +111,10 @@ def flush (st : RState) : List (List Val) :=
 row's cells are absorbed into the output row being built (the iterator is not
 reset). -/
 def rowStep (st : RState) (r : Row) : RState :=
+  if st.stopped then st
+  else if Facts.C04.rowsBoundByTotalRows && decide (r.r > Facts.TotalRows) then
+    { st with it := ⟨0, []⟩, stopped := true }
+  else
   let cur' := effRow st.cur r
   if cur' > st.seek then
     { seek := cur', cur := cur', it := r.cells.foldl cellStep ⟨0, []⟩, results := flush st }
@@ -115,7 +123,7 @@ def rowStep (st : RState) (r : Row) : RState :=
 /-- `GetRows` (also what iterating `Rows`/`Columns` and dropping the trailing
 empty rows yields) -/
 def getRows (s : Sheet) : List (List Val) :=
-  flush (s.foldl rowStep ⟨0, 0, ⟨0, []⟩, []⟩)
+  flush (s.foldl rowStep ⟨0, 0, ⟨0, []⟩, [], false⟩)
 
 /-! ## Impl: the column reader -/
 
@@ -257,6 +265,7 @@ def r0Rows : List Row → List Row → Outcome (List Row)
 
 /-- `checkSheet` -/
 def checkSheet (s : Sheet) : Outcome (List Row) :=
+  if Facts.C04.checkSheetBoundsRows && s.any (fun r => decide (r.r > Facts.TotalRows)) then .err else
   let st := s.foldl cs1Step ⟨0, [], []⟩
   let slots0 : List Row := List.replicate st.row emptyRow
   let slots1 := st.kept.foldl (fun sl r => sl.set (r.r - 1) r) slots0
@@ -285,8 +294,11 @@ def crPlace : List Cell → List Cell → Outcome (List Cell)
 def checkRow1 (idx : Nat) (r : Row) : Outcome Row :=
   if r.cells.isEmpty then .ok r else
   let cs := crAssign (idx + 1) 0 r.cells
-  let lastCol := match cs.getLast? with | some c => c.col | none => 0
-  if cs.length < lastCol then
+  let lastCol0 := match cs.getLast? with | some c => c.col | none => 0
+  if cs.length < lastCol0 then
+    -- cells may be out of order: size the row by its greatest column
+    let lastCol := if Facts.C04.checkRowSizesByGreatest
+      then cs.foldl (fun m c => if c.col > m then c.col else m) lastCol0 else lastCol0
     let tgt := (List.range lastCol).map fun j => { blankCell with col := j + 1, row := idx + 1 }
     match crPlace cs tgt with
     | .ok t => .ok { r with cells := t }
